@@ -152,6 +152,79 @@ static void part_handoff() {
     sample("handoff/tgsw-fft-made-by-worker/main-used-fft-before=0: a worker thread allocates and fills a TGswSampleFFT and a TLweSampleFFT and exits; the main thread then runs the FFT external product and the FFT conversions on them and deletes them");
 }
 
+// the four-step object API on caller-managed storage: alloc, init, [use every element the object owns], destroy, init AGAIN with other dimensions,
+// use, destroy, free; and the array forms with 0, 1 and 3 elements.  Oracles: guard pages / ASan, and the live-block count returns to its baseline.
+struct Dims { int n, N, k, l, Bgbit, t, bb; };
+template <class F> static void touch32(int32_t *p, size_t n, F &&sink) { for (size_t i = 0; i < n; i++) p[i] = (int32_t)(i * 2654435761u); uint64_t h = 0; for (size_t i = 0; i < n; i++) h += (uint32_t)p[i]; sink(h); }
+static void part_placement() {
+    const Dims DA = {3, 1024, 1, 2, 10, 2, 1}, DB = {9, 1024, 2, 3, 7, 3, 2};
+    struct T { const char *name; std::function<void(const Dims &, int)> cycle; };   // cycle(d, count): count < 0 = single object, else array form
+    uint64_t sinkv = 0; auto sink = [&](uint64_t h) { sinkv += h; };
+    auto P = [&](const Dims &d, LweParams *&lp, TLweParams *&tp, TGswParams *&gp) { lp = new_LweParams(d.n, 1e-5, 0.1); tp = new_TLweParams(d.N, d.k, 1e-9, 0.1); gp = new_TGswParams(d.l, d.Bgbit, tp); };
+    auto Q = [&](LweParams *lp, TLweParams *tp, TGswParams *gp) { delete_TGswParams(gp); delete_TLweParams(tp); delete_LweParams(lp); };
+#define CYCLE(TYPE, INITARGS, USE) [&](const Dims &d, int cnt) { LweParams *lp; TLweParams *tp; TGswParams *gp; P(d, lp, tp, gp); (void)lp; (void)tp; (void)gp; \
+        if (cnt < 0) { TYPE *o = alloc_##TYPE(); for (int rep = 0; rep < 2; rep++) { init_##TYPE INITARGS(o); { TYPE *x = o; USE; } destroy_##TYPE(o); } free_##TYPE(o); } \
+        else { TYPE *o = alloc_##TYPE##_array(cnt); for (int rep = 0; rep < 2; rep++) { init_##TYPE##_array INITARGS##_A(cnt, o); for (int e = 0; e < cnt; e++) { TYPE *x = o + e; USE; } destroy_##TYPE##_array(cnt, o); } free_##TYPE##_array(cnt, o); } Q(lp, tp, gp); }
+#define A1(o) (o, d.N)
+#define A1_A(c, o) (c, o, d.N)
+#define A2(o) (o, lp)
+#define A2_A(c, o) (c, o, lp)
+#define A3(o) (o, tp)
+#define A3_A(c, o) (c, o, tp)
+#define A4(o) (o, gp)
+#define A4_A(c, o) (c, o, gp)
+#define A5(o) (o, d.n + 1, d.t, d.bb, lp)
+#define A5_A(c, o) (c, o, d.n + 1, d.t, d.bb, lp)
+#define A6(o) (o, d.t, d.bb, lp, gp)
+#define A6_A(c, o) (c, o, d.t, d.bb, lp, gp)
+#define A7(o) (o, d.n, 1e-3, 0.25)
+#define A7_A(c, o) (c, o, d.n, 1e-3, 0.25)
+#define A8(o) (o, d.N, d.k, 1e-3, 0.25)
+#define A8_A(c, o) (c, o, d.N, d.k, 1e-3, 0.25)
+#define A9(o) (o, d.l, d.Bgbit, tp)
+#define A9_A(c, o) (c, o, d.l, d.Bgbit, tp)
+    std::vector<T> types = {
+        {"IntPolynomial", CYCLE(IntPolynomial, A1, touch32(x->coefs, d.N, sink))},
+        {"TorusPolynomial", CYCLE(TorusPolynomial, A1, touch32(x->coefsT, d.N, sink))},
+        {"LagrangeHalfCPolynomial", CYCLE(LagrangeHalfCPolynomial, A1, { TorusPolynomial *t = new_TorusPolynomial(d.N); touch32(t->coefsT, d.N, sink); LagrangeHalfCPolynomialClear(x); TorusPolynomial_ifft(x, t); LagrangeHalfCPolynomialAddTo(x, x); TorusPolynomial_fft(t, x); sink(t->coefsT[1]); delete_TorusPolynomial(t); })},
+        {"LweParams", CYCLE(LweParams, A7, sink(x->n))},
+        {"LweKey", CYCLE(LweKey, A2, touch32(x->key, d.n, sink))},
+        {"LweSample", CYCLE(LweSample, A2, { touch32(x->a, d.n, sink); x->b = 1; x->current_variance = 0; })},
+        {"LweKeySwitchKey", CYCLE(LweKeySwitchKey, A5, { for (int i = 0; i < d.n + 1; i++) for (int j = 0; j < d.t; j++) for (int h = 0; h < (1 << d.bb); h++) { touch32(x->ks[i][j][h].a, d.n, sink); x->ks[i][j][h].b = h; } })},
+        {"TLweParams", CYCLE(TLweParams, A8, sink(x->extracted_lweparams.n))},
+        {"TLweKey", CYCLE(TLweKey, A3, { for (int i = 0; i < d.k; i++) touch32(x->key[i].coefs, d.N, sink); })},
+        {"TLweSample", CYCLE(TLweSample, A3, { for (int i = 0; i <= d.k; i++) touch32(x->a[i].coefsT, d.N, sink); sink(x->b == x->a + d.k); })},
+        {"TLweSampleFFT", CYCLE(TLweSampleFFT, A3, { tLweFFTClear(x, tp); for (int i = 0; i <= d.k; i++) LagrangeHalfCPolynomialAddTorusConstant(x->a + i, 5); })},
+        {"TGswParams", CYCLE(TGswParams, A9, { for (int i = 0; i < d.l; i++) sink(x->h[i]); sink(x->offset); })},
+        {"TGswKey", CYCLE(TGswKey, A4, { for (int i = 0; i < d.k; i++) touch32(x->key[i].coefs, d.N, sink); })},
+        {"TGswSample", CYCLE(TGswSample, A4, { for (int q = 0; q < (d.k + 1) * d.l; q++) for (int i = 0; i <= d.k; i++) touch32(x->all_sample[q].a[i].coefsT, d.N, sink); sink(x->bloc_sample[d.k] == x->all_sample + d.k * d.l); })},
+        {"TGswSampleFFT", CYCLE(TGswSampleFFT, A4, { for (int q = 0; q < (d.k + 1) * d.l; q++) for (int i = 0; i <= d.k; i++) LagrangeHalfCPolynomialClear(x->all_samples[q].a + i); })},
+        {"LweBootstrappingKey", CYCLE(LweBootstrappingKey, A6, { for (int i = 0; i < d.n; i++) for (int q = 0; q < (d.k + 1) * d.l; q++) for (int c = 0; c <= d.k; c++) touch32(x->bk[i].all_sample[q].a[c].coefsT, d.N, sink); int tot = d.k * d.N * d.t * (1 << d.bb); for (int r = 0; r < tot; r++) touch32(x->ks->ks0_raw[r].a, d.n, sink); })},
+    };
+    for (auto &t : types) for (int shape = 0; shape < 4; shape++) {
+        int cnt = shape == 0 ? -1 : shape == 1 ? 0 : shape == 2 ? 1 : 3;
+        std::string key = fmt("placement/%s/%s", t.name, cnt < 0 ? "single" : fmt("array-of-%d", cnt).c_str());
+        if (!take(key)) continue; if (deadline()) return; current(key);
+        Fate f = forked([&] { t.cycle(DA, cnt);                        // warm-up (one-time allocations: per-thread FFT state, garbage collector)
+            long b0 = vf_live_blocks, y0 = vf_live_bytes;
+            for (int round = 0; round < 3; round++) { t.cycle(DA, cnt); t.cycle(DB, cnt); t.cycle(DA, cnt); }
+            if (vf_guard_mode() >= 0 && (vf_live_blocks != b0 || vf_live_bytes != y0)) violation(key, fmt("%s: after alloc/init/destroy/init/destroy/free cycles with two dimension sets %ld heap blocks (%ld bytes) are live, before: %ld (%ld)", t.name, (long)vf_live_blocks, (long)vf_live_bytes, b0, y0));
+            eval(9); nontrivial(1); outcome(mix(fnv(t.name, strlen(t.name)), cnt + 2)); }, 300);
+        if (f.died()) violation(key, "process died: " + fate_str(f) + " " + f.text.substr(0, 400));
+    }
+    // the FFT key is initialised FROM a bootstrapping key
+    { std::string key = "placement/LweBootstrappingKeyFFT/single+array"; if (take(key) && !deadline()) { current(key);
+        Fate f = forked([&] { for (int round = 0; round < 3; round++) for (const Dims &d : {DA, DB}) { LweParams *lp; TLweParams *tp; TGswParams *gp; P(d, lp, tp, gp); LweBootstrappingKey *bk = new_LweBootstrappingKey(d.t, d.bb, lp, gp);
+                for (int i = 0; i < d.n; i++) tGswClear(&bk->bk[i], gp); int tot = d.k * d.N * d.t * (1 << d.bb); for (int r = 0; r < tot; r++) lweClear(&bk->ks->ks0_raw[r], lp);
+                LweBootstrappingKeyFFT *o = alloc_LweBootstrappingKeyFFT(); for (int rep = 0; rep < 2; rep++) { init_LweBootstrappingKeyFFT(o, bk); sink(o->ks->n); destroy_LweBootstrappingKeyFFT(o); } free_LweBootstrappingKeyFFT(o);
+                for (int cnt : {0, 1, 2}) { LweBootstrappingKeyFFT *a = alloc_LweBootstrappingKeyFFT_array(cnt); init_LweBootstrappingKeyFFT_array(cnt, a, bk); destroy_LweBootstrappingKeyFFT_array(cnt, a); free_LweBootstrappingKeyFFT_array(cnt, a); }
+                delete_LweBootstrappingKey(bk); Q(lp, tp, gp); }
+            eval(6); nontrivial(1); outcome(0xFF7); }, 600);
+        if (f.died()) violation(key, "process died: " + fate_str(f) + " " + f.text.substr(0, 400)); } }
+    if (sinkv == 42) fprintf(stderr, " ");
+    sample("placement/TGswSample/array-of-3: alloc_TGswSample_array(3); {init_..._array, write every coefficient of every row of every element, destroy_..._array} twice with (k,l)=(1,2) and (2,3); free: no fault, live heap blocks back to the baseline");
+}
+
 int main(int argc, char **argv) {
     init(argc, argv);
     { std::string pre = std::string(VF_VARIANT) + "/" + S().backend + "/"; if (!S().only.compare(0, pre.size(), pre)) S().only = S().only.substr(pre.size()); } // replay of a cross-job digest comparison
@@ -159,5 +232,6 @@ int main(int argc, char **argv) {
     if (part == "all" || part == "cells") part_cells();
     if (part == "all" || part == "threads") part_threads();
     if (part == "all" || part == "handoff") part_handoff();
+    if (part == "all" || part == "placement") part_placement();
     return finish();
 }
